@@ -422,8 +422,10 @@ class Ctx:
             "wall_s": round(time.time() - self.t0, 2),
             "violations": violations,
         }
-        os.makedirs(os.path.join(VERIF, "evidence"), exist_ok=True)
-        path = os.path.join(VERIF, "evidence", self.pid + ".json")
+        # evidence/ only ever holds runs against /repo itself; scratch-tree runs (PV_REPO) go elsewhere
+        evdir = "evidence" if REPO == os.path.realpath("/repo") else os.path.join("replays", "scratch-evidence")
+        os.makedirs(os.path.join(VERIF, evdir), exist_ok=True)
+        path = os.path.join(VERIF, evdir, self.pid + ".json")
         tmp = path + ".tmp%d" % os.getpid()
         with open(tmp, "w") as f:
             json.dump(ev, f, indent=1, default=repr)
